@@ -988,8 +988,21 @@ class NDCube(NDCubeBase):
         else:
             new_unit = self.unit
         new_data = self.data * value
-        new_uncertainty = (type(self.uncertainty)(self.uncertainty.array * value)
-                           if self.uncertainty is not None else None)
+        if self.uncertainty is None:
+            new_uncertainty = None
+        else:
+            # How an uncertainty scales depends on what it measures: a standard deviation
+            # scales with the magnitude of the factor, a variance with its square.
+            uncertainty_type = getattr(self.uncertainty, "uncertainty_type", None)
+            if uncertainty_type == "std":
+                uncertainty_factor = np.abs(value)
+            elif uncertainty_type == "var":
+                uncertainty_factor = np.square(value)
+            elif uncertainty_type == "ivar":
+                uncertainty_factor = 1 / np.square(value)
+            else:
+                uncertainty_factor = value
+            new_uncertainty = type(self.uncertainty)(self.uncertainty.array * uncertainty_factor)
         new_cube = self._new_instance(data=new_data, unit=new_unit, uncertainty=new_uncertainty)
         return new_cube
 
